@@ -1120,6 +1120,14 @@ func (c *ControlPlane) InheritDialerHealthFrom(previous *ControlPlane) bool {
 		previousGroups[group.Name] = group
 	}
 
+	// Nodes are shared between groups: restore the state of every group's nodes
+	// first and keep the floors for a second pass, or a later group's restore of
+	// a shared node would undo the floor an earlier group was given.
+	type reloadFloor struct {
+		group    *outbound.DialerGroup
+		fallback outbound.ReloadSelectionFallback
+	}
+	var floors []reloadFloor
 	for _, group := range c.outbounds {
 		if group == nil {
 			continue
@@ -1145,7 +1153,10 @@ func (c *ControlPlane) InheritDialerHealthFrom(previous *ControlPlane) bool {
 				hasOverlap = true
 			}
 		}
-		group.EnsureReloadSelectionFloor(fallback)
+		floors = append(floors, reloadFloor{group: group, fallback: fallback})
+	}
+	for _, f := range floors {
+		f.group.EnsureReloadSelectionFloor(f.fallback)
 	}
 	return hasOverlap
 }
